@@ -104,6 +104,28 @@ def steer_population(rnd, date):
     return df, kinds
 
 
+def elderly_mixed(rnd, date):
+    """households in which retirees live with non-retired adults (grown-up child, three generations) or alone, all with
+    little income and no wealth: the Grundsicherung im Alter / ALG II / Wohngeld border"""
+    kinds = [rnd.choice(["adult_child", "three_gen", "adult_child", "pensioner_couple", "pensioner_single"])
+             for _ in range(rnd.randint(1, 2))]
+    df, kinds = popgen.population(rnd, date, kinds=kinds)
+    df = df.copy()
+    adult = df["alter"] >= 18
+    df["rentner"] = df["alter"] >= rnd.choice([63, 66, 68])
+    for col in ("eink_selbst_m", "kapitaleink_brutto_m", "eink_vermietung_m", "sonstig_eink_m", "vermögen_bedürft",
+                "kind_unterh_erhalt_m", "bruttolohn_m"):
+        df[col] = 0.0
+    df["selbstständig"] = False
+    lo = rnd.choice([0.0, 0.0, 200.0, 600.0])
+    df["bruttolohn_m"] = np.where(adult & ~df["rentner"], lo, 0.0)
+    df["priv_rente_m"] = np.where(df["rentner"], rnd.choice([0.0, 150.0, 400.0]), 0.0)
+    for col in ("entgeltp_west", "entgeltp_ost"):
+        if col in df.columns:
+            df[col] = np.where(df["rentner"], df[col].clip(upper=rnd.choice([0.0, 5.0, 15.0])), df[col])
+    return df, ["elderly mixed: " + ", ".join(kinds)]
+
+
 def mixed_household(rnd, date, wage):
     """a couple with a child sharing a flat with an unrelated adult without income (two needs units)"""
     p = popgen.Pop(rnd, date)
@@ -134,6 +156,7 @@ def system_search(run, rnd, dates, n_pops):
     for date in dates:
         pops = [steer_population(rnd, date) for _ in range(n_pops)]
         pops += [(mixed_household(rnd, date, w), ["mixed household"]) for w in range(1200, 2700, 100)]
+        pops += [elderly_mixed(rnd, date) for _ in range(max(6, n_pops // 2))]
         for df, kinds in pops:
             ok, res = run.attempt(f"simulate at {date}", popgen.simulate, df, date, targets=T,
                                   replay={"date": date, "data": popgen.frame_to_json(df)})
